@@ -269,10 +269,11 @@ func (cl *CachedLocation) Get(ctx *Context, sys *System, name string, checkExist
 		Log(DEBUG, ctx, "CachedLocation.Get", "name", name, "opening", false)
 		ctx.SetLoc(loc)
 	}
+	missing := nil == cl.Location
 	cl.Unlock()
 
 	// Remove from cache if location does not exist so the cache does not explode
-	if nil == cl.Location {
+	if missing {
 		sys.CachedLocations.Lock()
 		delete(sys.CachedLocations.locs, name)
 		sys.CachedLocations.Unlock()
